@@ -1316,8 +1316,14 @@ pub fn gen_sampled(rng: &mut Rng, heavy: bool) -> Option<(Case, Vec<Value>)> {
     let output = steps.len() - 1;
     let prog = Prog { graphs: vec![GraphD { steps, output, ..Default::default() }] };
     prog.build().ok()?;
-    let owners: Vec<Owner> = (0..2).map(|_| *rng.pick(&[Owner::Party(0), Owner::Party(1), Owner::Party(2), Owner::Shared])).collect();
-    let outputs = crate::gen::gen_outputs(rng);
+    let mut owners: Vec<Owner> = (0..2).map(|_| *rng.pick(&[Owner::Party(0), Owner::Party(1), Owner::Party(2), Owner::Shared])).collect();
+    let mut outputs = crate::gen::gen_outputs(rng);
+    if kind == 3 {
+        // the truncation protocol opens the masked value between parties 0 and 1: make them observers that neither own
+        // a differing input nor receive the (differing) output
+        owners = vec![Owner::Party(2), Owner::Shared];
+        outputs = vec![2];
+    }
     // world A: zeros; world B: far from A but with the SAME plaintext output wherever that is easy, so that output
     // recipients are compared too (an observer that owns an input which differs between the worlds is skipped)
     let small = |t: &Type, rng: &mut Rng| -> Vec<u128> {
